@@ -246,6 +246,95 @@ def consumption_forms(P, kind, who, mk_iter):
     return fails
 
 
+def views_mismatch(P, kind, it, sel):
+    """first field of the item that differs from the array views AS THEY ARE NOW (None: all agree)"""
+    vix = P.vertex_index[sel]
+    if not same(it.indices, vix):
+        return 'indices'
+    if not same(it.vertices, P.vertex[vix]):
+        return 'vertices'
+    if P.normal is not None and not same(it.normals, P.normal[P.normal_index[sel]]):
+        return 'normals'
+    if len(it.texcoords) != len(P.texcoordset):
+        return 'texcoord-sets'
+    for j, (d, ixs) in enumerate(zip(P.texcoordset, P.texcoord_indexset)):
+        if not same(it.texcoords[j], d[ixs[sel]]):
+            return 'texcoords'
+    return None
+
+
+def live_passes(P, kind, case, who, mk_iter, mutators):
+    """One pass per mutator: the arrays are changed through the public interface BETWEEN two items of the
+    same pass; every item is compared with the views at the moment it is handed out."""
+    fails = []
+    k = B.KK[kind]
+    vcounts = None
+    if k == 1:
+        eff = B.effective_inputs(case)
+        nind = max(off for off, _, _ in eff) + 1
+        _, vcounts = B.stream_of(case, nind)
+    for name, mutate in mutators:
+        n = len(P)
+        if n < 2 or P.vertex_index is None:
+            return fails
+
+        def go():
+            bad = None
+            count = 0
+            for i, it in enumerate(mk_iter()):
+                if i >= n:
+                    return 'too-many-items'
+                sel = slice(sum(vcounts[:i]), sum(vcounts[:i]) + vcounts[i]) if k == 1 else i
+                if bad is None:
+                    bad = views_mismatch(P, kind, it, sel)
+                    if bad is not None:
+                        bad = '%s-of-item-%d' % (bad, i)
+                if i == 0:
+                    mutate(P)
+                count += 1
+            return bad if bad is not None or count == n else 'count-%d-of-%d' % (count, n)
+        c, res = attempt(go)
+        if c != 0:
+            fails.append({'clause': 'item-fields', 'site': kind, 'who': who, 'what': 'live-%s-raises-%s' % (name, type(res).__name__),
+                          'detail': 'a pass with %s between two items raised %r' % (name, res)})
+        elif res is not None:
+            fails.append({'clause': 'item-fields', 'site': kind, 'who': who, 'what': 'live-%s' % name,
+                          'detail': 'with %s between item 0 and item 1 of one pass: %s differs from the views at hand-out' % (name, res)})
+    return fails
+
+
+def precision_probe(case, M, matmap):
+    """The same primitive over double-precision sources whose values single precision cannot represent,
+    bound with a double-precision matrix of non-representable entries: items must carry exactly what the
+    views give (direct oracle only; API path)."""
+    import numpy
+    if case['via'] != 'create':
+        return []
+    c2 = dict(case, dforms={str(i): 'f64x' for i in range(len(case['srcs']))}, prelude=None, saves=0)
+    p2, exc = B.construct(c2)
+    if exc is not None:
+        return []
+    kind = case['kind']
+    k = B.KK[kind]
+    if k == 1:
+        eff = B.effective_inputs(case)
+        nind = max(off for off, _, _ in eff) + 1
+        want_len = len(B.stream_of(case, nind)[1])
+    else:
+        want_len = len(p2.index)
+    fails = []
+    c, v = attempt(lambda: list(p2))
+    fails += clauses(p2, kind, False, case, c, v, want_len, who='unbound-float64')
+    M2 = numpy.array(M, dtype=numpy.float64)
+    M2[:3, :] = M2[:3, :] / 3.0 + 0.1
+    b2 = p2.bind(M2, matmap)
+    c, v = attempt(lambda: list(b2.shapes()))
+    fails += clauses(b2, kind, True, case, c, v, want_len, who='bound-float64')
+    c, v = attempt(lambda: list(b2))
+    fails += clauses(b2, kind, True, case, c, v, want_len, who='bound-float64-legacy')
+    return fails
+
+
 def run_case(case):
     import numpy
     kind = case['kind']
@@ -346,6 +435,27 @@ def run_case(case):
         if attempt(p.generateTexTangentsAndBinormals)[0] == 0:
             fails += recheck(p, False, 'unbound-after-generateTexTangentsAndBinormals')
             fails += recheck(p.bind(M, matmap), True, 'bound-of-generated-tangents')
+    fails += precision_probe(case, M, matmap)
+
+    # changes made through the public interface BETWEEN two items of one pass
+    def bump(P):
+        P.vertex[:, 0] += 2
+        if P.normal is not None and P.normal is not P.vertex:
+            P.normal[:, 2] += 5
+        for t in P.texcoordset:
+            t[:, 1] -= 1
+    muts = [('inplace-data-edit', bump)]
+    if kind == 'tri':
+        muts.append(('generateNormals', lambda P: P.generateNormals()))
+    meth2 = {'tri': 'triangles', 'line': 'lines', 'polylist': 'polygons', 'polygons': 'polygons'}[kind]
+    b3 = p.bind(M, matmap)
+    fails += live_passes(b3, kind, case, 'bound-shapes', lambda: b3.shapes(), muts)
+    b4 = p.bind(M, matmap)
+    fails += live_passes(b4, kind, case, 'bound-' + meth2, lambda: getattr(b4, meth2)(), muts)
+    b5 = p.bind(M, matmap)
+    fails += live_passes(b5, kind, case, 'bound-legacy', lambda: iter(b5), muts)
+    fails += live_passes(p, kind, case, 'unbound', lambda: iter(p), muts)
+
     # in-place edits of the arrays behind the views (the supported way of moving points or re-indexing
     # before saving): items must carry what the views give NOW.  Last, because it changes the data.
     if ulen > 0 and p.vertex_index is not None:
